@@ -1166,5 +1166,56 @@ theorem dependency_spec (r s : Region) :
         · rintro ⟨q, hq, hc⟩
           rw [hn q hq] at hc; cases hc
 
+/-- `region.transpose()`: the listed cycles are exactly the cycles holding a cell, in ascending
+    order, each with exactly the qudits of its cells in ascending order -/
+theorem transpose_spec (r : Region) (hr : wf r = true) :
+    (∀ c qs, (c, qs) ∈ transpose r → qs = (location r).filter (fun q => r.hasPt c q) ∧ qs ≠ [])
+    ∧ (∀ c, (∃ qs, (c, qs) ∈ transpose r) ↔ ∃ q, hasPt r c q = true)
+    ∧ ((transpose r).map (·.1)).Pairwise (· < ·) := by
+  unfold transpose
+  by_cases he : r.isEmpty = true
+  · have : r = [] := by cases r <;> simp_all
+    subst this
+    simp [hasPt, get]
+  · simp only [he, Bool.false_eq_true, if_false]
+    have hne : r ≠ [] := fun e => he (by simp [e])
+    refine ⟨?_, ?_, ?_⟩
+    · intro c qs h
+      simp only [List.mem_filter, List.mem_map, List.mem_range'_1, Bool.not_eq_true',
+        List.isEmpty_eq_false_iff] at h
+      obtain ⟨⟨c', _, he'⟩, hq⟩ := h
+      simp only [Prod.mk.injEq] at he'
+      obtain ⟨rfl, rfl⟩ := he'
+      exact ⟨rfl, hq⟩
+    · intro c
+      simp only [List.mem_filter, List.mem_map, List.mem_range'_1, Bool.not_eq_true',
+        List.isEmpty_eq_false_iff, Prod.mk.injEq]
+      constructor
+      · rintro ⟨qs, ⟨c', _, rfl, rfl⟩, hq⟩
+        obtain ⟨q, hq'⟩ := List.exists_mem_of_ne_nil _ hq
+        exact ⟨q, (List.mem_filter.1 hq').2⟩
+      · rintro ⟨q, hq⟩
+        obtain ⟨a, ha, hm⟩ := (hasPt_iff r c q).1 hq
+        have h1 := lo_ge_min r q a ha
+        have h2 := hi_le_max r q a ha
+        have hm' := (Iv.mem_iff _ _).1 hm
+        refine ⟨_, ⟨c, by omega, rfl, rfl⟩, ?_⟩
+        intro hnil
+        have : q ∈ (location r).filter (fun q => r.hasPt c q) := by
+          rw [List.mem_filter]
+          refine ⟨?_, hq⟩
+          rw [location, mem_sortN, ← get_isSome_iff]; simp [ha]
+        rw [hnil] at this; cases this
+    · have hp : ((List.range' (minL (r.map (·.2.lo)))
+          (maxL (r.map (·.2.hi)) + 1 - minL (r.map (·.2.lo)))).map
+          (fun c => (c, (location r).filter (fun q => r.hasPt c q)))).map (·.1)
+          = List.range' (minL (r.map (·.2.lo))) (maxL (r.map (·.2.hi)) + 1 - minL (r.map (·.2.lo))) := by
+        simp [List.map_map, Function.comp_def]
+      have hs : (List.range' (minL (r.map (·.2.lo)))
+          (maxL (r.map (·.2.hi)) + 1 - minL (r.map (·.2.lo)))).Pairwise (· < ·) :=
+        List.pairwise_lt_range'
+      rw [← hp] at hs
+      exact (List.Pairwise.sublist (List.Sublist.map _ List.filter_sublist) hs)
+
 end Region
 end BqVerif.Region
